@@ -35,6 +35,7 @@ structure NameInfo where
   internal : Bool
   loaded : Bool
   mw : List Bool
+  hm : List Bool
 
 def bit? : Char → Option Bool
   | '0' => some false
@@ -51,12 +52,13 @@ def nat? (s : String) : Option Nat :=
 
 def parseName (s : String) : Option NameInfo :=
   match s.splitOn ":" with
-  | [h, fl, row] => do
+  | [h, fl, row, hrow] => do
     let b ← Hex.decode h
     let f ← bits? fl
     let r ← bits? row
+    let hr ← bits? hrow
     match f with
-    | [q, p, i, n, l] => if b.all (· < 128) then some ⟨b, q, p, i, n, l, r⟩ else none
+    | [q, p, i, n, l] => if b.all (· < 128) then some ⟨b, q, p, i, n, l, r, hr⟩ else none
     | _ => none
   | _ => none
 
@@ -123,7 +125,8 @@ def paramsOf (names : List NameInfo) : Params :=
     internal := fun d => match names[d]? with | some x => x.internal | none => false
     loaded := fun d => match names[d]? with | some x => x.loaded | none => false
     ts := fun d => match names[d]? with | some x => isTailscale x.str | none => false
-    mw := fun d e => match names[d]? with | some x => getB x.mw e | none => false }
+    mw := fun d e => match names[d]? with | some x => getB x.mw e | none => false
+    hm := fun d e => match names[d]? with | some x => getB x.hm e | none => false }
 
 def indexOfName (name : Bytes) : List (Bytes × Server) → Nat → Option Nat
   | [], _ => none
@@ -138,7 +141,7 @@ def wellFormed (k hp sp : Nat) (names : List NameInfo) (srvs : List (Bytes × Se
   decide (1 ≤ k ∧ k ≤ 64 ∧ hp < 65536 ∧ sp < 65536) &&
   (match names with | x :: _ => x.str.isEmpty | [] => false) &&
   decide (names.length ≤ 16) && decide (srvs.length ≤ 8) && decide (pols.length ≤ 8) &&
-  names.all (fun x => decide (x.mw.length = names.length)) &&
+  names.all (fun x => decide (x.mw.length = names.length) && decide (x.hm.length = names.length)) &&
   nodupB (names.map (·.str)) &&
   nodupB (srvs.map (·.1)) &&
   srvs.all (fun s => serverNamesOk names.length s.2) &&
@@ -185,9 +188,33 @@ def showServer (c : Config) (n : Nat) (kv : Nat × SrvOut) : String :=
   showTable n (portUniverse c) kv.2.routes ++
     (if kv.2.routes.any (Route.strange n (portUniverse c)) then "!" else "")
 
+/-- the name can be the Host of a request as it is: letters, digits, `.`, `-`, `*` -/
+def probeable (b : Bytes) : Bool :=
+  !b.isEmpty && b.all fun x =>
+    (97 ≤ x && x ≤ 122) || (65 ≤ x && x ≤ 90) || (48 ≤ x && x ≤ 57) || x == 46 || x == 45 || x == 42
+
+def showServed : Served → String
+  | .user i => "u" ++ toString i
+  | .redir p => "r" ++ toString p
+  | .nothing => "-"
+
+def userRoutesOf (c : Config) (k : Nat) : List URoute :=
+  match c.servers[k]? with
+  | some s => s.routes
+  | none => []
+
+/-- what plain HTTP requests for every probeable name (and for an unknown host) get from
+    every resulting server that listens on the HTTP port -/
+def showDispatch (c : Config) (P : Params) (names : List Bytes) (kv : Nat × SrvOut) : String :=
+  (if kv.1 < c.servers.length then "s" ++ toString kv.1 else "new") ++ ":" ++
+  ",".intercalate
+    (((indexed names 0).map fun ib =>
+        if probeable ib.2 then showServed (serve P (userRoutesOf c kv.1) (some ib.1) kv.2.routes) else "~") ++
+     [showServed (serve P (userRoutesOf c kv.1) none kv.2.routes)])
+
 /-- the canonical answer: a tabulation of the observations of `Spec.lean` over the
     config's own names, ports and addresses -/
-def canon (c : Config) (n : Nat) (r : Result) : String :=
+def canonS (c : Config) (n : Nat) (r : Result) : String :=
   "ok c=" ++ String.join ((List.range n).map fun d => showBit (r.certs.contains d)) ++
     (if r.certs.any (fun d => decide (n ≤ d)) then "!" else "") ++
   " p=" ++ joinOr ";" (r.policies.map (showPolicy n)) ++
@@ -222,17 +249,47 @@ def insertByName (names : List Bytes) (i : Nat) : List Nat → List Nat
 def sortedServers (names : List Bytes) : List Nat :=
   (List.range names.length).foldl (fun acc i => insertByName names i acc) []
 
-/-- the iteration orders of the repaired code: every `range` runs over sorted keys.  Only the
-    order of the servers is visible in the canonical line (`Props.deterministic` shows that no
-    runtime order is left; the observations forget the order of the other maps by construction) -/
-def sortedOrders (names : List Bytes) : Orders :=
-  { Orders.id with srv := sortedServers names, recv := fun _ => sortedServers names }
+/-- decimal digits of a number, as bytes -/
+def natBytes (n : Nat) : Bytes := (toString n).toUTF8.toList
 
-def showOutcome (c : Config) (n : Nat) : Outcome → String
+def netPrefix : Nat → Bytes
+  | 0 => []
+  | 1 => str "tcp4/"
+  | 2 => str "tcp6/"
+  | _ => str "udp/"
+
+/-- `NetworkAddress.String()`: the default network tcp is omitted, `net.JoinHostPort` brackets a
+    host that contains a colon, a port range prints as `start-end` -/
+def addrStr (a : Addr) : Bytes :=
+  netPrefix a.net ++ (if a.host.contains 58 then [91] ++ a.host ++ [93] else a.host) ++ [58] ++
+    natBytes a.sp ++ (if a.ep = a.sp then [] else [45] ++ natBytes a.ep)
+
+def insertBy {α} (key : α → Bytes) (x : α) : List α → List α
+  | [] => [x]
+  | y :: rest => if lexLt (key x) (key y) then x :: y :: rest else y :: insertBy key x rest
+
+def sortBy {α} (key : α → Bytes) (l : List α) : List α := l.foldl (fun acc x => insertBy key x acc) []
+
+/-- the iteration orders of the repaired code: every `range` runs over
+    `slices.Sorted(maps.Keys(m))` — servers by name, domains by name, addresses by their string -/
+def sortedOrders (c : Config) (srvNames names : List Bytes) : Orders :=
+  { srv := sortedServers srvNames
+    uniq := sortBy (fun d => names.getD d []) (List.range names.length)
+    dom := sortBy (fun d => names.getD d []) (List.range names.length)
+    addr := sortBy addrStr (addrUniverse c)
+    raddr := sortBy addrStr (addrUniverse c)
+    recv := fun _ => sortedServers srvNames
+    laddr := sortBy addrStr (addrUniverse c) }
+
+def canon (c : Config) (P : Params) (names : List Bytes) (r : Result) : String :=
+  canonS c names.length r ++ " h=" ++
+  joinOr ";" ((r.servers.filter fun kv => kv.2.listen.any fun a => coversPort a (httpPort c)).map (showDispatch c P names))
+
+def showOutcome (c : Config) (P : Params) (names : List Bytes) : Outcome → String
   | .errTLS => "err:tls"
   | .errMatcher => "err:matcher"
   | .errAddr => "err:addr"
-  | .ok r => canon c n r
+  | .ok r => canon c P names r
 
 def handle : List String → String
   | ["cfg", k, hp, sp, names, servers, policies, loaded] =>
@@ -240,9 +297,9 @@ def handle : List String → String
           list? ";" parsePolicy policies, bits? loaded with
     | some k, some hp, some sp, some names, some srvs, some pols, some [ld] =>
       if wellFormed k hp sp names srvs pols ld then
-        showOutcome ⟨hp, sp, srvs.map (·.2), pols, indexOfName reservedName srvs 0⟩ names.length
+        showOutcome ⟨hp, sp, srvs.map (·.2), pols, indexOfName reservedName srvs 0⟩ (paramsOf names) (names.map (·.str))
           (phase1 ⟨hp, sp, srvs.map (·.2), pols, indexOfName reservedName srvs 0⟩ (paramsOf names)
-            (sortedOrders (srvs.map (·.1))))
+            (sortedOrders ⟨hp, sp, srvs.map (·.2), pols, indexOfName reservedName srvs 0⟩ (srvs.map (·.1)) (names.map (·.str))))
       else "bad-op"
     | _, _, _, _, _, _, _ => "bad-op"
   | _ => "bad-op"
@@ -250,8 +307,8 @@ def handle : List String → String
 /-- counter-example lines replayed on the implementation on every run (see Witness.lean) -/
 def witnessLines : List String := [
   -- Witness.redirect_port_full_fails: catch-all redirect of a name-less TLS server (sorted first) shadows a.test
-  "C11 cfg 64 0 0 -:00000:10;612e74657374:11000:01 7330/0.-.9443.9443/00000/-/-/h1;7331/0.-.8443.8443/00002/-/-/- - 0",
+  "C11 cfg 64 0 0 -:00000:10:00;612e74657374:11000:01:01 7330/0.-.9443.9443/00000/-/-/h1;7331/0.-.8443.8443/00002/-/-/- - 0",
   -- Witness.redirect_exists_full_fails: no managed certificate names, existing HTTP server
-  "C11 cfg 64 0 0 -:00000:10;612e74657374:11000:01 7330/0.-.8443.8443/00100/-/-/h1;7331/0.-.80.80/00000/-/-/c - 0"]
+  "C11 cfg 64 0 0 -:00000:10:00;612e74657374:11000:01:01 7330/0.-.8443.8443/00100/-/-/h1;7331/0.-.80.80/00000/-/-/c - 0"]
 
 end CaddyModel.C11
